@@ -4,5 +4,9 @@ NOTE = "trusted: CPython ast; CasADi semantics of Function/substitute/Opti; the 
 CLAIMED = {
  "C13": {"category": "other", "text": "Typestate/effect analysis: " + STRUCT % "C13" + ". Rules: invalidate-on-edit for every public Stage/Ocp mutator (path-sensitive write-implies-event), reset of the method object before every phase-1 transcription, copy discipline of _transcribe, solver-setting inheritance, @transcribed coverage.",
          "note": NOTE, "technique": "effect sets + path-sensitive must-analysis on structured CFG (ast)"},
+ "C06": {"category": "other", "text": "Path/affine analysis: " + STRUCT % "C06" + ". Rules: end points and normalisation of every grid class, integrator grid (M equal steps), coupling constraints placed by every method for every k, min/max bound rows yielded by every grid class for its extreme intervals (three-valued guard evaluation with symbolic k), localisation chain, DT/DT_control from grid differences, no T/N shortcut outside grid classes.",
+         "note": NOTE, "technique": "must-yield analysis on structured CFG with symbolic guards + affine normal forms (ast)"},
+ "C15": {"category": "other", "text": "Normal-form and exhaustiveness analysis: " + STRUCT % "C15" + ". Rules: certificate time scales are the step of interval k, opcode dispatch exhaustive with raising default, comparison operators relayed faithfully, exact check of the literal power->Bernstein table, placement for every (k,l) in every method, paired substitution lists.",
+         "note": NOTE, "technique": "polynomial normal form of expressions + branch exhaustiveness (ast)"},
 }
 NOT_APPLICABLE = {}
